@@ -7,8 +7,8 @@ CONSTANTS
   MaxOps = 14
   GenHist = TRUE
   Fix16 = TRUE
-  Fix17 = TRUE
-  Fix17b = TRUE
+  Fix17 = FALSE
+  Fix17b = FALSE
   Fix18 = TRUE
 INIT Init
 NEXT GenNext
